@@ -14,18 +14,25 @@
      as long as some handle is unfinished some handle can take a step ([C16_no_deadlock]); every
      blocked handle has a releaser that knows about it and the release wakes all waiters
      ([C16_no_lost_wakeup]).
-   WHAT IS ASSUMED (the guards of DESIGN §7 C16), made visible as [C16_guards_by_construction]:
-   the model's only writes to the memo table store a memo verified in the current revision with
-   the from-scratch value; insert_memo is done by the claim holder.  That ONE thread running
-   the real algorithm satisfies this is C01 (Props/C01.v); that it still does when other
-   threads act between its steps is NOT proved (stage-2 goal of DESIGN §7 C16).
-   WHAT IS NOT PROVED: termination of every handle (no livelock) — the visible full statement is
-   [C16_termination_full_statement]; that the real fetch_cold / deep_verify_memo decompose into
-   exactly these atomic steps (tie: H2 trace replay + shuttle exploration, checks/C16.py);
-   atomics orderings; condvar semantics. *)
+   WHAT CFetch ASSUMES (the guards of DESIGN §7 C16), made visible as
+   [C16_guards_by_construction]: its only writes to the memo table store a memo verified in the
+   current revision with the from-scratch value; insert_memo is done by the claim holder.
+   STAGE 2 (second half of this file) DISCHARGES that assumption over the refined model CFetch2,
+   which COMPUTES what it stores from the values its callees returned and from computed
+   dependency / input-stamp checks ([C16_values_computed], [C16_memo_writes_sound],
+   [C16_computed_refines_abstract]) — for static call lists and LOW durabilities; and proves
+   termination with an explicit bound ([C16_termination], [C16_run_bounded], [C16_completes],
+   composed: [C16_sequential_results_no_deadlock_terminates]).
+   WHAT IS STILL NOT PROVED: that the real fetch_cold / deep_verify_memo decompose into exactly
+   these atomic steps (tie: H2 trace replay + shuttle exploration, checks/C16.py); dynamic call
+   lists and the durability short-cut under interference; atomics orderings; condvars. *)
 From Salsa Require Import Base.
 From Salsa.Proto Require Import Model ProofsGraph ProofsInv ProofsStep.
-From Salsa.CFetch Require Import Model ProofsProto ProofsRel ProofsSafe ProofsLive ProofsTop Examples.
+From Salsa.CFetch Require Import Model ProofsProto ProofsRel ProofsSafe ProofsLive ProofsTop Examples
+  ProofsTerm ExamplesTerm.
+From Salsa.CFetch2 Require Model ProofsEq ProofsRel ProofsVal ProofsSim ProofsTop Examples.
+Import Salsa.CFetch2.Model Salsa.CFetch2.ProofsEq Salsa.CFetch2.ProofsRel Salsa.CFetch2.ProofsVal
+  Salsa.CFetch2.ProofsSim Salsa.CFetch2.ProofsTop Salsa.CFetch2.Examples.
 
 (* ---- values ---- *)
 Theorem C16_values :
@@ -179,12 +186,220 @@ Check C16_no_lost_wakeup :
        edges (dg (c_proto s')) x = None /\ wres (dg (c_proto s')) x = Some Completed).
 Print Assumptions C16_no_lost_wakeup.
 
-(* NOT PROVED (kept visible): from every reachable state of a rank-respecting program all
-   handles can be run to completion, and no infinite run exists.  What is proved is the
-   absence of deadlock ([C16_no_deadlock]); a decreasing measure for the retry loop
-   (each retry of a waiter is paid for by a release of another handle) is not mechanised; at run
-   time shuttle's step bound stands in for it (checks/C16.py). *)
+(* the termination statement stage 1 kept visible as not proved; PROVED below as
+   [C16_termination] (with the explicit bound [Phi], see [C16_run_bounded]) *)
 Definition C16_termination_full_statement : Prop :=
   forall fuel P rank s, ranked P rank -> creach fuel P s -> (length (c_tids s) < fuel)%nat ->
   exists n, forall l s', grun fuel P l s = Some s' ->
     (forall o, In o l -> exists t c, o = GStep t c) -> (length l <= n)%nat.
+
+(* ====================================================================================== *)
+(* STAGE 2 — the two gaps named above, closed                                               *)
+(* ====================================================================================== *)
+
+(* ---- (1) termination: a measure that every thread step lowers (CFetch/ProofsTerm.v) ----
+
+   [Phi P rank s] is computed from the program, the memo table, the stacks and the outstanding
+   requests: a request for a key costs 1 if its memo is verified in the current revision, else
+   8 + the walks over the edges of its stale memo and over the calls of an execution (1 + the
+   cost of the callee per edge, recursion on the rank); a frame weighs what is left of that in
+   its phase; a handle weighs its frames + (1 + cost) per outstanding request.  No fairness is
+   needed: a blocked handle has no step, every step that exists lowers [Phi].  A waiter does not
+   loop because whoever is woken finds the memo verified.  [GBump] (a new revision) is not a
+   thread step: the bound is per revision / per segment between two bumps or spawns. *)
+Theorem C16_step_decreases_measure :
+  forall fuel P rank s t c s',
+  ranked P rank -> creach fuel P s -> tstep fuel P s t c = Some s' ->
+  (Phi P rank s' < Phi P rank s)%nat.
+Proof. exact step_decreases. Qed.
+
+Check C16_step_decreases_measure :
+  forall fuel P rank s t c s',
+  ranked P rank -> creach fuel P s -> tstep fuel P s t c = Some s' ->
+  (Phi P rank s' < Phi P rank s)%nat.
+Print Assumptions C16_step_decreases_measure.
+
+(* the explicit bound: any schedule of thread steps from [s] has at most [Phi P rank s] steps *)
+Theorem C16_run_bounded :
+  forall fuel P rank l s s',
+  ranked P rank -> creach fuel P s -> Forall is_gstep l -> grun fuel P l s = Some s' ->
+  (length l + Phi P rank s' <= Phi P rank s)%nat.
+Proof. exact run_bounded. Qed.
+
+Check C16_run_bounded :
+  forall fuel P rank l s s',
+  ranked P rank -> creach fuel P s -> Forall is_gstep l -> grun fuel P l s = Some s' ->
+  (length l + Phi P rank s' <= Phi P rank s)%nat.
+Print Assumptions C16_run_bounded.
+
+(* the statement that stage 1 kept visible as "not proved" *)
+Theorem C16_termination : C16_termination_full_statement.
+Proof. exact terminates_stmt. Qed.
+
+Check C16_termination : C16_termination_full_statement.
+Print Assumptions C16_termination.
+
+(* with deadlock freedom: the handles can always be run to completion within the bound, and a
+   schedule that cannot be extended has answered every request *)
+Theorem C16_completes :
+  forall fuel P rank s,
+  ranked P rank -> creach fuel P s -> (length (c_tids s) < fuel)%nat ->
+  exists l s', Forall is_gstep l /\ grun fuel P l s = Some s' /\ (length l <= Phi P rank s)%nat /\
+               forall t, In t (c_tids s') -> doneb (c_thr s' t) = true.
+Proof. exact completes. Qed.
+
+Check C16_completes :
+  forall fuel P rank s,
+  ranked P rank -> creach fuel P s -> (length (c_tids s) < fuel)%nat ->
+  exists l s', Forall is_gstep l /\ grun fuel P l s = Some s' /\ (length l <= Phi P rank s)%nat /\
+               forall t, In t (c_tids s') -> doneb (c_thr s' t) = true.
+Print Assumptions C16_completes.
+
+Theorem C16_maximal_runs_end_done :
+  forall fuel P rank s,
+  ranked P rank -> creach fuel P s -> (length (c_tids s) < fuel)%nat ->
+  (forall t c, In t (c_tids s) -> tstep fuel P s t c = None) ->
+  forall t, In t (c_tids s) -> doneb (c_thr s t) = true.
+Proof. exact stuck_is_done. Qed.
+
+Check C16_maximal_runs_end_done :
+  forall fuel P rank s,
+  ranked P rank -> creach fuel P s -> (length (c_tids s) < fuel)%nat ->
+  (forall t c, In t (c_tids s) -> tstep fuel P s t c = None) ->
+  forall t, In t (c_tids s) -> doneb (c_thr s t) = true.
+Print Assumptions C16_maximal_runs_end_done.
+
+(* the witness run: budget 36, the schedule with a waiter takes 18 steps, 13 left in the blocked
+   state, 0 at the end *)
+Example C16_termination_witness :
+  creach 10 ex_prog ex_spawned /\ ranked ex_prog ex_rank /\
+  (Forall is_gstep ex_round1_steps /\ grun 10 ex_prog ex_round1_steps ex_spawned = Some ex_state1) /\
+  (Phi ex_prog ex_rank ex_spawned, length ex_round1_steps, Phi ex_prog ex_rank ex_blocked,
+   Phi ex_prog ex_rank ex_state1) = (36, 18, 13, 0)%nat.
+Proof. exact (conj ex_spawned_reachable (conj ex_ranked (conj ex_round1_run ex_measure))). Qed.
+
+(* ---- (2) the guards under interference: CFetch2 computes what it stores ----
+
+   CFetch2/Model.v has the same protocol skeleton, but insert_memo stores
+   [q_body k (input values) (the values the callee frames RETURNED)] with a backdated
+   changed_at, and mark_as_verified fires only after the walk saw every recorded dependency
+   verified now with changed_at <= the memo's verified_at and every input stamp <= it — computed,
+   not assumed.  CFetch2/ProofsVal.v proves (rely/guarantee: a memo verified in the current
+   revision is never rewritten in it; returned pairs are those of memos verified now; induction
+   on the rank through [E_unfold]) that both writes store the from-scratch value
+   [E Q rank cur k]; CFetch2/ProofsSim.v turns that into a step-by-step refinement of CFetch with
+   [p_val := E], so every theorem above transfers.  Hypotheses: calls descend along a rank
+   ([ranked2]); input stamps are honest ([stamps_ok]: the value did not change since the stamp).
+   Fragment: static call lists, no durability short-cut (LOW durabilities, as C01). *)
+Theorem C16_values_computed :
+  forall fuel Q rank s2,
+  ranked2 Q rank -> stamps_ok Q -> creach2 fuel Q s2 ->
+  forall t k r v, In (ERet t k r v) (c2_log s2) -> v = E Q rank r k.
+Proof. exact values_computed. Qed.
+
+Check C16_values_computed :
+  forall fuel Q rank s2,
+  ranked2 Q rank -> stamps_ok Q -> creach2 fuel Q s2 ->
+  forall t k r v, In (ERet t k r v) (c2_log s2) -> v = E Q rank r k.
+Print Assumptions C16_values_computed.
+
+(* every memo of every reachable state carries the from-scratch value of the revision it was
+   last verified in: what publish computed and what mark_verified kept *)
+Theorem C16_memo_writes_sound :
+  forall fuel Q rank s2 k m,
+  ranked2 Q rank -> stamps_ok Q -> creach2 fuel Q s2 -> c2_memo s2 k = Some m ->
+  E Q rank (n_ver m) k = n_val m /\ n_ver m <= c2_cur s2 /\ n_chg m <= n_ver m.
+Proof. exact memo_sound. Qed.
+
+Check C16_memo_writes_sound :
+  forall fuel Q rank s2 k m,
+  ranked2 Q rank -> stamps_ok Q -> creach2 fuel Q s2 -> c2_memo s2 k = Some m ->
+  E Q rank (n_ver m) k = n_val m /\ n_ver m <= c2_cur s2 /\ n_chg m <= n_ver m.
+Print Assumptions C16_memo_writes_sound.
+
+(* the refinement: a reachable CFetch2 state abstracts to a reachable CFetch state of the
+   program [absP Q rank] (same call lists, p_val := from-scratch value), up to pointwise
+   equality of the function components *)
+Theorem C16_computed_refines_abstract :
+  forall fuel Q rank s2,
+  ranked2 Q rank -> stamps_ok Q -> creach2 fuel Q s2 ->
+  exists s, creach fuel (absP Q rank) s /\ ceq s (abs s2).
+Proof. exact refines_abstract. Qed.
+
+Check C16_computed_refines_abstract :
+  forall fuel Q rank s2,
+  ranked2 Q rank -> stamps_ok Q -> creach2 fuel Q s2 ->
+  exists s, creach fuel (absP Q rank) s /\ ceq s (abs s2).
+Print Assumptions C16_computed_refines_abstract.
+
+Theorem C16_once_computed :
+  forall fuel Q rank s2,
+  ranked2 Q rank -> stamps_ok Q -> creach2 fuel Q s2 ->
+  forall k r, (count_exec k r (c2_log s2) <= 1)%nat.
+Proof. exact once_computed. Qed.
+
+Check C16_once_computed :
+  forall fuel Q rank s2,
+  ranked2 Q rank -> stamps_ok Q -> creach2 fuel Q s2 ->
+  forall k r, (count_exec k r (c2_log s2) <= 1)%nat.
+Print Assumptions C16_once_computed.
+
+(* ---- composed ---- *)
+Theorem C16_sequential_results_no_deadlock_terminates :
+  forall fuel Q rank s2,
+  ranked2 Q rank -> stamps_ok Q -> creach2 fuel Q s2 -> (length (c2_tids s2) < fuel)%nat ->
+  (forall t k r v, In (ERet t k r v) (c2_log s2) -> v = E Q rank r k) /\
+  (forall l s2', Forall is_gstep l -> grun2 fuel Q l s2 = Some s2' ->
+     (length l + Phi2 Q rank s2' <= Phi2 Q rank s2)%nat) /\
+  (forall l s2', Forall is_gstep l -> grun2 fuel Q l s2 = Some s2' ->
+     (forall t c, In t (c2_tids s2') -> tstep2 fuel Q s2' t c = None) ->
+     (forall t, In t (c2_tids s2') -> doneb2 (c2_thr s2' t) = true) /\
+     (forall t k r v, In (ERet t k r v) (c2_log s2') -> v = E Q rank r k)) /\
+  (exists l s2', Forall is_gstep l /\ grun2 fuel Q l s2 = Some s2' /\
+     (length l <= Phi2 Q rank s2)%nat /\
+     forall t, In t (c2_tids s2') -> doneb2 (c2_thr s2' t) = true).
+Proof. exact sequential_results_no_deadlock_terminates. Qed.
+
+Check C16_sequential_results_no_deadlock_terminates :
+  forall fuel Q rank s2,
+  ranked2 Q rank -> stamps_ok Q -> creach2 fuel Q s2 -> (length (c2_tids s2) < fuel)%nat ->
+  (forall t k r v, In (ERet t k r v) (c2_log s2) -> v = E Q rank r k) /\
+  (forall l s2', Forall is_gstep l -> grun2 fuel Q l s2 = Some s2' ->
+     (length l + Phi2 Q rank s2' <= Phi2 Q rank s2)%nat) /\
+  (forall l s2', Forall is_gstep l -> grun2 fuel Q l s2 = Some s2' ->
+     (forall t c, In t (c2_tids s2') -> tstep2 fuel Q s2' t c = None) ->
+     (forall t, In t (c2_tids s2') -> doneb2 (c2_thr s2' t) = true) /\
+     (forall t k r v, In (ERet t k r v) (c2_log s2') -> v = E Q rank r k)) /\
+  (exists l s2', Forall is_gstep l /\ grun2 fuel Q l s2 = Some s2' /\
+     (length l <= Phi2 Q rank s2)%nat /\
+     forall t, In t (c2_tids s2') -> doneb2 (c2_thr s2' t) = true).
+Print Assumptions C16_sequential_results_no_deadlock_terminates.
+
+(* three handles, shared sub-query, everybody waits once; two revisions: a successful
+   verification (mark), a re-execution forced by an input stamp, a re-execution forced by a
+   changed callee; budgets 90 / 90, schedules of 36 / 30 steps, all handles done *)
+Example C16_computed_witness :
+  ranked2 ex2_prog ex2_rank /\ stamps_ok ex2_prog /\
+  creach2 10 ex2_prog ex2_start1 /\ creach2 10 ex2_prog ex2_final /\
+  (Forall is_gstep ex2_sched1 /\ grun2 10 ex2_prog ex2_sched1 ex2_start1 = Some ex2_end1 /\
+   (length (c2_tids ex2_start1) < 10)%nat) /\
+  (c2_log ex2_end1, notified (dg (c2_proto ex2_end1)),
+   forallb (fun t => doneb2 (c2_thr ex2_end1 t)) (c2_tids ex2_end1)) =
+  ([ERet 2 3 1 17; ERet 1 3 1 17; ERet 1 2 1 12; ERet 3 2 1 12; ERet 3 1 1 5; ERet 1 1 1 5;
+    EExec 1 1 1; EExec 3 2 1; EExec 1 3 1],
+   [(2, Completed); (1, Completed); (3, Completed)], true) /\
+  (firstn 10 (c2_log ex2_final),
+   (c2_memo ex2_final 1, c2_memo ex2_final 2, c2_memo ex2_final 3),
+   forallb (fun t => doneb2 (c2_thr ex2_final t)) (c2_tids ex2_final)) =
+  ([ERet 1 3 2 19; ERet 1 2 2 14; ERet 1 1 2 5; EExec 1 3 2; ERet 1 2 2 14; ERet 1 1 2 5;
+    EExec 1 2 2; ERet 1 1 2 5; ERet 2 1 2 5; ERet 1 1 2 5],
+   (Some (mkM2 2 5 1 []), Some (mkM2 2 14 2 [1]), Some (mkM2 2 19 2 [1; 2])), true) /\
+  (map (E ex2_prog ex2_rank 1) [1; 2; 3], map (E ex2_prog ex2_rank 2) [1; 2; 3]) =
+  ([5; 12; 17], [5; 14; 19]) /\
+  (Phi2 ex2_prog ex2_rank ex2_start1, length ex2_sched1, Phi2 ex2_prog ex2_rank ex2_end1,
+   Phi2 ex2_prog ex2_rank ex2_mid, length ex2_sched2, Phi2 ex2_prog ex2_rank ex2_final) =
+  (90, 36, 0, 90, 30, 0)%nat.
+Proof.
+  exact (conj ex2_ranked (conj ex2_stamps (conj ex2_start1_reachable (conj ex2_final_reachable
+        (conj ex2_sched1_run (conj ex2_round1 (conj ex2_round2 (conj ex2_spec ex2_bound)))))))).
+Qed.
